@@ -3,7 +3,7 @@ LEVEL = "proof"
 TITLE = "Retention removes exactly the expired messages and nothing else"
 LEVEL_TEXT = ("proof (Coq) about a model of RetentionScanner.DoScan and of Start's run loop as a step machine over (clock, ctx, store) "
               "(over ALL schedules of clock ticks, cancellations, other clients' operations and loop moves: inert for period <= 0, at most one "
-              "scan start per minute, at most one more mailbox callback after cancel and Join returns, no young message ever removed, a message "
+              "scan start per minute, after cancel at most one more mailbox callback plus one per select that an already expired timer wins against ctx.Done (exactly one when RetentionSleep's timer has not expired) and Join returns, no young message ever removed, a message "
               "older than the period is gone once a scan started afterwards completes) over the abstract store of C07 — exactness of an "
               "undisturbed scan, no young message removed and every expired one gone under arbitrary interleaving with other "
               "clients, step-bounded stop after cancellation, inert run loop for period <= 0 — tied to the code by running the real "
@@ -24,7 +24,8 @@ RULE = ("scan: generated age distributions over 0-5 mailboxes (incl. emptied one
         "an id-reuse stream removes every expired message still live (or purges) and delivers fresh mail before the first and between "
         "the scanner's removals; a stream parks a delivery between its mailbox lookup and its mailbox lock across the removal "
         "that empties the mailbox (memory store, verifhook mem.wm.lock); "
-        "a third cancels the context during the n-th callback; start: the run loop with period <= 0 and with cancellation. asm12: the assembled server (server.FullAssembly + Services.Start, child process) serves for 1.5 s a file store that already holds messages of mixed ages, with period 0 and positive periods: afterwards no unexpired message (period 0: no message at all) may be missing; the surviving messages are compared with what the run-loop model leaves after the seconds served. "
+        "a third cancels the context during the n-th callback (RetentionSleep 100 ms), a fourth does so with RetentionSleep 0 / 1 ns where the "
+        "select at the callback end is a race (any outcome of the model's alternatives is accepted); start: the run loop with period <= 0 and with cancellation. asm12: the assembled server (server.FullAssembly + Services.Start, child process) serves for 1.5 s a file store that already holds messages of mixed ages, with period 0 and positive periods: afterwards no unexpired message (period 0: no message at all) may be missing; the surviving messages are compared with what the run-loop model leaves after the seconds served. "
         "distinct = distinct input line; non-trivial = the store holds at least one message before the scan.")
 TRUSTED = [
     "the tie of the store models to the Go stores is C07's correspondence check (scan_over_store_models ties this property's model to those models); store operations are atomic (C09)",
@@ -34,7 +35,15 @@ TRUSTED = [
     "the run loop's clock is not fake-able (retention.go reads time.Now / time.After directly and hooks may not touch existing lines): "
     "the loop model is tied to the code through the `start` cases (real Start, real minute in the thorough tier) and the assembled-server cases asm12",
 ]
-ASSUMPTIONS = ["message ages are at least 2 s away from the retention cutoff in every generated case"]
+ASSUMPTIONS = [
+    "message ages are at least 2 s away from the retention cutoff in every generated case",
+    "promptness after cancel ('at most one more mailbox callback', 'stops within entries-left + const steps') is proved and checked for "
+    "the case in which the ctx case wins the select at a callback end, i.e. RetentionSleep's timer has not expired there (default 50 ms; "
+    "the cancel cases use 100 ms). For RetentionSleep 0 / 1 ns the select is a real race in Go (model: timer_first flag); what is promised "
+    "and checked there: the scan returns, each further callback is entered only through a timer win, nothing young is deleted, nothing "
+    "beyond the mailboxes reached is touched. Each snapshot entry left may cost one RemoveMessage call, so a mailbox with n expired "
+    "messages delays shutdown by up to n removals",
+]
 NOT_PROVED = []
 EXEC_TIMEOUT = {"quick": 900, "thorough": 7200}
 
